@@ -9,6 +9,7 @@ EXPLANATION = ('Value-flow normal forms and the loop summary of HMC::step with H
                'H = -logp + 1/2 sum_dim1 p^2 at both ends; accept mask = [H(x,p0) - H(x_L,p_L) - ln U >= 0] (non-strict), U uniform of shape [n_chains]; '
                'positions := mask_where(x, expand(unsqueeze_dim(mask,1)), x_L) as the only store; no tensor op on the slice mixes rows. '
                'Numeric reversibility "up to rounding" and row-wise behaviour of user densities are not decided.')
+FLOORS = {'obligations': 12}   # counted on the reference tree; fewer instantiated obligations is reported, never passed silently
 TECHNIQUE = 'value-flow normal form + loop summary (Verlet transfer function) vs specification table; op allow-list (row independence)'
 ULP = 'distributions::BatchedGradientTarget::unnorm_logp_batch'
 HALF = T.div(T.ONE, N(2))
